@@ -444,6 +444,8 @@ def run(chk):
     emitsiblings.run(chk)
     emitsiblings.run_error_codes(chk)
 
+    from lib import deabstract
+    deabstract.run(chk)
     return chk.finish(
         level="other",
         explanation=("Capture/replay coverage rules over BaseBuilder in /repo's current source: each node-creating override is replayed by "
